@@ -16,13 +16,16 @@ package server
 
 import (
 	"fmt"
+	"sync"
 	"time"
 
 	"github.com/cybergarage/go-redis/redis"
 )
 
 // Database represents a database.
+// Redis executes one command at a time; every command handler holds the database lock while it runs.
 type Database struct {
+	sync.Mutex
 	ID redis.DatabaseID
 	*Records
 }
